@@ -116,10 +116,36 @@ def rule_spec_params(idx: ProgramIndex, rep: Report):
 
 
 def _string_returns(fn: FunctionInfo) -> Set[str]:
+    """String literals the function can return: `return "x"`, `return name` where name is the variable of an enclosing
+    `for name in ("x", "y", ...)` or is assigned string literals only, and conditional expressions of those."""
     out = set()
+    loop_vars: Dict[str, Set[str]] = {}
+    assigned: Dict[str, Set[Optional[str]]] = {}
     for n in walk_body(fn):
-        if isinstance(n, ast.Return) and isinstance(n.value, ast.Constant) and isinstance(n.value.value, str):
-            out.add(n.value.value)
+        if isinstance(n, ast.For) and isinstance(n.target, ast.Name) and isinstance(n.iter, (ast.Tuple, ast.List, ast.Set)):
+            vals = {e.value for e in n.iter.elts if isinstance(e, ast.Constant) and isinstance(e.value, str)}
+            if len(vals) == len(n.iter.elts):
+                loop_vars.setdefault(n.target.id, set()).update(vals)
+        if isinstance(n, ast.Assign) and len(n.targets) == 1 and isinstance(n.targets[0], ast.Name):
+            v = n.value
+            assigned.setdefault(n.targets[0].id, set()).add(v.value if isinstance(v, ast.Constant) and isinstance(v.value, str) else None)
+
+    def lits(e: ast.AST) -> Set[str]:
+        if isinstance(e, ast.Constant) and isinstance(e.value, str):
+            return {e.value}
+        if isinstance(e, ast.IfExp):
+            return lits(e.body) | lits(e.orelse)
+        if isinstance(e, ast.Name):
+            got = set(loop_vars.get(e.id, set()))
+            a = assigned.get(e.id)
+            if a and None not in a:
+                got |= {x for x in a if x is not None}
+            return got
+        return set()
+
+    for n in walk_body(fn):
+        if isinstance(n, ast.Return) and n.value is not None:
+            out |= lits(n.value)
     return out
 
 
